@@ -54,7 +54,22 @@ CASES = [
     ("sampler kernel takes the wrong size", SA, "size=len(hye1) - len(intersection)", "size=len(hye2) - len(intersection)", 0, ["HyMMSBMSampler._pairwise_reshuffle"], "AssertionError"),
     ("filter: keep and remove exchanged", FI, "if (mode == \"keep\" and not matches) or (mode == \"remove\" and matches):\n                edges_to_process.append(edge)",
      "if (mode == \"keep\" and matches) or (mode == \"remove\" and not matches):\n                edges_to_process.append(edge)", 0, ["filter_hypergraph[Hypergraph]"], "loop2"),
+    ("multiplex batch: every record put into the first layer", MH, "                    edge_layer[i],", "                    edge_layer[0],", 0, ["MultiplexHypergraph.add_edges"], "loop0:preserved"),
+    ("directed batch: direction swapped", DH, "        for i, edge in enumerate(edge_list):\n            self.add_edge(\n                edge,",
+     "        for i, edge in enumerate(edge_list):\n            self.add_edge(\n                (edge[1], edge[0]),", 0, ["DirectedHypergraph.add_edges"], "loop0:preserved:E"),
+    ("temporal batch: all records at the first time", TH, "                    time_list[i],", "                    time_list[0],", 0, ["TemporalHypergraph.add_edges"], "loop0:preserved:E"),
+    ("temporal: min_time keeps the largest", TH, "            if min > edge[0]:", "            if min < edge[0]:", 0, ["TemporalHypergraph.min_time"], "loop0:preserved:bound"),
+    ("temporal: max_time starts from 0", TH, "        max = -math.inf", "        max = 0", 0, ["TemporalHypergraph.max_time"], "loop0:entry"),
+    ("hash pre-image ignores the weight", HG, '"weight": self._weights.get(edge_id, 1),', '"weight": 1,', 0, ["Hypergraph.expose_attributes_for_hashing"], "loop0:preserved"),
+    ("hash pre-image lists nodes of the metadata table", HG, "        for node in sorted(self._adj.keys()):\n            nodes.append", "        for node in sorted(self._node_metadata.keys()):\n            nodes.append", 0,
+     ["Hypergraph.expose_attributes_for_hashing"], "ensures:nodes_len"),
+    ("directed: get_sources lists the targets", DH, "return [edge[0] for edge in self._edge_list.keys()]", "return [edge[1] for edge in self._edge_list.keys()]", 0, ["DirectedHypergraph.get_sources"], "ensures:members"),
+    ("directed: is_uniform measures the source only", DH, "edge = set(edge[0]).union(set(edge[1]))", "edge = set(edge[0])", 0, ["DirectedHypergraph.is_uniform"], "loop0:preserved"),
+    ("jaccard over the intersection twice", "hypergraphx/measures/edge_similarity.py", "return len(a.intersection(b)) / len(a.union(b))", "return len(a.intersection(b)) / len(a.intersection(b))", 0, ["jaccard_similarity"], "ensures:result"),
     # ---- hygiene-only and behaviour-preserving changes: nothing may fail
+    ("hash pre-image: renamed local", HG, "            edge_id = self._edge_list[edge]\n            edges.append(\n                {\n                    \"nodes\": sorted_edge,\n                    \"weight\": self._weights.get(edge_id, 1),\n                    \"metadata\": self._edge_metadata.get(edge_id, {}),",
+     "            eid = self._edge_list[edge]\n            edges.append(\n                {\n                    \"nodes\": sorted_edge,\n                    \"weight\": self._weights[eid],\n                    \"metadata\": self._edge_metadata[eid],", 0,
+     ["Hypergraph.expose_attributes_for_hashing"], None),
     ("remove_edge forgets del _weights (unobservable)", HG, "        del self._weights[self._edge_list[edge]]\n", "", 0, ["Hypergraph.remove_edge"], None),
     ("remove_edge forgets del _reverse_edge_list (unobservable)", HG, "        del self._reverse_edge_list[self._edge_list[edge]]\n", "", 0, ["Hypergraph.remove_edge"], None),
     ("add_edge: new local for the id, statements reordered", HG,
